@@ -65,6 +65,10 @@ def init_worker():
 
 
 def cases(tier, seed):
+    # small seed-independent families first: falsy annotations, shared atoms, fragment names reused across levels
+    yield from gr.zero_weight_cases(tier)
+    yield from gr.shared_cases(tier)
+    yield from gr.layered_reuse_cases(tier)
     small = []
     for c in gr.two_level_cases(tier, seed):
         yield c
@@ -99,12 +103,39 @@ def classify(case, clause, step):
     return 'resolve/%s/%s' % (kind, clause)
 
 
+def _check_shared(cgsmiles, case, key):
+    """Inputs with `!`: membership bi-implication and covering (specs.check_membership), memberships / mapping / structure
+    against the construction (specs.check_shared)."""
+    fails, nontrivial, step = [], False, -1
+    kind = 'all-atom' if case['all_atom'] else 'coarse'
+    names = {k: nm for k, nm in case['base']['nodes']}
+    try:
+        for step, (coarse, fine) in enumerate(gr.make_resolver(cgsmiles, case).resolve_iter()):
+            probs = rs.check_membership(coarse, fine, shared_atoms=True)
+            probs += rs.check_shared(coarse, fine, case['expect'], names, case['all_atom'])
+            nontrivial = nontrivial or sum(1 for k in coarse.nodes if rs.members(fine, k)) >= 2
+            for clause, detail in probs:
+                fails.append(Failure('MoleculeResolver.resolve', clause, 'step %d of %s: %s' % (step, gr.full_string(case), detail),
+                                     'resolve/shared-atoms/%s/%s' % (kind, clause)))
+    except Exception as e:      # noqa
+        fails.append(Failure('MoleculeResolver.resolve', 'exception', 'step %d of %s: %s: %s' % (
+            step + 1, gr.full_string(case), type(e).__name__, str(e)[:300]), 'resolve/shared-atoms/%s/exception-%s' % (kind, type(e).__name__)))
+    seen, uniq = set(), []
+    for f in fails:
+        if f['kind'] not in seen:
+            seen.add(f['kind'])
+            uniq.append(f)
+    return Outcome(key, nontrivial, uniq)
+
+
 def check_case(case):
     import cgsmiles
     how = case.get('how', 'string')
     key = repr((how, case.get('keys'), gr.full_string(case), case['all_atom'], case['legacy']))
     if how != 'graph-own' and not gr.reader_agrees(cgsmiles, case):
         return Outcome(key, False, [], skipped=True, note='base string not read as intended (C04/C05)')
+    if case.get('design') == 'shared':
+        return _check_shared(cgsmiles, case, key)
     fails, nontrivial = [], False
     try:
         templates = gr.read_templates(cgsmiles, case)
